@@ -1,4 +1,5 @@
 import ClusterVerif.Lemmas.C14
+import ClusterVerif.Lemmas.C14Crash
 import ClusterVerif.Model.C14Source
 import ClusterVerif.Gen.C14
 
@@ -97,6 +98,88 @@ theorem export_import_crdt_id_partial (g t listing : List Pin) (hw : ∀ p ∈ g
     ∃ js, exportStream listing = some js ∧ importStateCrdt (fromList t) js false = (.ok (fromList g), fromList g) := by
   obtain ⟨js, h1, h2⟩ := export_import_id_partial g t listing hw ho hl
   exact ⟨js, h1, by rw [importStateCrdt_eq]; exact h2⟩
+
+/-! ## the import stream, document by document -/
+
+/-- importing two streams one after the other is importing their concatenation (concatenated exports) -/
+theorem importInto_append : ∀ (a b : List JPin) (m : PinMap),
+    importInto m (a ++ b) = (importInto m a).bind (fun m' => importInto m' b) := by
+  intro a
+  induction a with
+  | nil => intro b m; rfl
+  | cons j t ih =>
+    intro b m
+    simp only [List.cons_append, importInto]
+    cases jdec j with
+    | none => rfl
+    | some p => exact ih b _
+
+/-- the import keeps the representation invariant -/
+theorem importInto_ss : ∀ (js : List JPin) (m r : PinMap), SS m → importInto m js = some r → SS r := by
+  intro js
+  induction js with
+  | nil => intro m r hm h; cases h; exact hm
+  | cons j t ih =>
+    intro m r hm h
+    simp only [importInto] at h
+    cases hj : jdec j with
+    | none => rw [hj] at h; cases h
+    | some p => rw [hj] at h; exact ih _ r (ss_put hm) h
+
+/-- **import_dup_last_wins.** Of several documents with the same cid the LAST one is what the state holds: if no
+    document after `j` names the cid of `j`, the imported state holds exactly `j`'s pin for that cid. -/
+theorem import_dup_last_wins (pre post : List JPin) (j : JPin) (p : Pin) (m r : PinMap) (hm : SS m)
+    (hj : jdec j = some p) (hpost : ∀ j' ∈ post, ∀ p', jdec j' = some p' → p'.cid ≠ p.cid)
+    (h : importInto m (pre ++ j :: post) = some r) :
+    store p ∈ r ∧ ∀ q ∈ r, q.cid = p.cid → q = store p := by
+  rw [importInto_append] at h
+  cases hpre : importInto m pre with
+  | none => rw [hpre] at h; cases h
+  | some m1 =>
+    rw [hpre] at h
+    simp only [Option.bind_some, importInto, hj] at h
+    have hm1 : SS m1 := importInto_ss pre m m1 hm hpre
+    have hcid : (store p).cid = p.cid := rfl
+    -- after `j`: the state holds store p as the only pin with that cid; later documents keep it
+    have key : ∀ (post : List JPin) (m2 r : PinMap), SS m2 → (store p ∈ m2 ∧ ∀ q ∈ m2, q.cid = p.cid → q = store p) →
+        (∀ j' ∈ post, ∀ p', jdec j' = some p' → p'.cid ≠ p.cid) → importInto m2 post = some r →
+        store p ∈ r ∧ ∀ q ∈ r, q.cid = p.cid → q = store p := by
+      intro post
+      induction post with
+      | nil => intro m2 r _ hin _ h; cases h; exact hin
+      | cons j' t ih =>
+        intro m2 r hs hin hp h
+        simp only [importInto] at h
+        cases hj' : jdec j' with
+        | none => rw [hj'] at h; cases h
+        | some p' =>
+          rw [hj'] at h
+          have hne : p'.cid ≠ p.cid := hp j' List.mem_cons_self p' hj'
+          refine ih _ r (ss_put hs) ⟨?_, ?_⟩ (fun x hx => hp x (List.mem_cons_of_mem _ hx)) h
+          · exact (mem_put hs).2 (Or.inr ⟨hin.1, fun hc => hne (show (store p').cid = (store p).cid from hc.symm)⟩)
+          · intro q hq hqc
+            rcases (mem_put hs).1 hq with rfl | ⟨hq', _⟩
+            · exact absurd hqc hne
+            · exact hin.2 q hq' hqc
+    refine key post _ r (ss_put hm1) ⟨(mem_put hm1).2 (Or.inl rfl), ?_⟩ hpost h
+    intro q hq hqc
+    rcases (mem_put hm1).1 hq with rfl | ⟨_, hne⟩
+    · rfl
+    · exact absurd hqc hne
+
+/-- **import_prefix_on_error.** A stream that breaks (a document that does not decode, or bytes that are not JSON after
+    complete documents) makes `state import` fail, and NOTHING of the documents read before the break is kept: the
+    manager has cleaned the target and saves/commits only at the end (raft: the data folder is gone, see
+    `import_failure_leaves`; crdt: the batch is dropped). -/
+theorem import_prefix_on_error (prior : PinMap) (stream : List JPin) (garbage : Bool)
+    (h : importInto [] stream = none ∨ garbage = true) :
+    importState prior stream garbage = (.err, []) ∧ importStateCrdt prior stream garbage = (.err, []) := by
+  rw [importStateCrdt_eq]
+  unfold importState
+  rcases h with h | h
+  · rw [h]; exact ⟨rfl, rfl⟩
+  · subst h
+    cases importInto [] stream <;> exact ⟨rfl, rfl⟩
 
 /-! ## rotation -/
 
@@ -278,6 +361,382 @@ example : loadShaped { finalNewline := true, bom := true } [⟨.full 0 1, 0⟩, 
 
 example : load [.long, .full 0 1, .slashBad 3, .noSlash 0, .empty, .bare 2] = [.full 0 1, .bare 2] := by decide
 
+/-! ## crash points (every prefix of the filesystem steps of an operation, then a restart) -/
+
+/-- The steps of `CleanupRaft`, run to the end, are the operation of the rotation model. -/
+theorem clean_steps_complete {α : Type} (junk : Folder α) {keep : Nat} (hk : 1 ≤ keep) (d : Dirs α) :
+    cleanupRaft keep d = some (applySteps junk d (cleanSteps keep d)) := by
+  unfold cleanupRaft cleanSteps
+  cases hd : d.data with
+  | none => rfl
+  | some f =>
+    cases f with
+    | nosnap => rfl
+    | snap s => simp only []; rw [final_eq_makeBackup hk d _ hd, backup_all junk hk d _ hd]
+
+/-- The steps of `SnapshotSave`, run to the end, are the operation of the rotation model. -/
+theorem save_steps_complete {α : Type} (junk : Folder α) {keep : Nat} (hk : 1 ≤ keep) (d : Dirs α) (s : α) :
+    snapshotSave keep d s = some (applySteps junk d (saveSteps keep d s)) := by
+  unfold snapshotSave saveSteps
+  cases hd : d.data with
+  | none => simp only [applySteps, List.foldl_cons, List.foldl_nil, applyStep, hd]
+  | some f =>
+    cases f with
+    | nosnap => simp only [applySteps, List.foldl_cons, List.foldl_nil, applyStep]
+    | snap p =>
+      simp only []
+      have h := clean_steps_complete junk hk d
+      unfold cleanSteps at h
+      simp only [hd] at h
+      rw [h, applySteps_append]
+      simp only [Option.map_some, applySteps, List.foldl_cons, List.foldl_nil, applyStep]
+
+/-- **backup_never_loses_data.** A crash after ANY number of filesystem steps of `CleanupRaft` (for every
+    retention ≥ 1, every pre-existing folder set, whatever a half-removed folder looks like): the snapshot that
+    was in the data folder is in the data folder or in old.0; every other backup is in its slot or the next
+    one, except the one in old.(N-1) when all N slots were taken; nothing outside old.0 … old.(N-1) is touched
+    (so there are never more than N backups plus the data folder). -/
+theorem backup_never_loses_data {α : Type} (junk : Folder α) {keep : Nat} (hk : 1 ≤ keep) (d : Dirs α) (s : α)
+    (hd : d.data = some (.snap s)) (k : Nat) :
+    ((crashAt junk d (cleanSteps keep d) k).data = some (.snap s) ∨ (crashAt junk d (cleanSteps keep d) k).old 0 = some (.snap s)) ∧
+    (∀ i x, d.old i = some x → (i + 1 = keep ∧ ∀ j < keep, (d.old j).isSome = true) ∨
+        (crashAt junk d (cleanSteps keep d) k).old i = some x ∨ (crashAt junk d (cleanSteps keep d) k).old (i + 1) = some x) ∧
+    (∀ i, keep ≤ i → (crashAt junk d (cleanSteps keep d) k).old i = d.old i) := by
+  have hs : cleanSteps keep d = backupSteps keep d := by unfold cleanSteps; rw [hd]
+  rw [hs]
+  obtain ⟨h1, h2, h3, _⟩ := form_facts hk junk d _ hd _ (backup_forms junk keep d k)
+  exact ⟨h1, h2, h3⟩
+
+/-- **The next rotation repairs the numbering.** `CleanupRaft` run again after a crash at ANY point ends
+    exactly where the uninterrupted `CleanupRaft` ends — for every data folder (snapshot, no snapshot, absent). -/
+theorem crash_restart_repairs {α : Type} (junk : Folder α) {keep : Nat} (hk : 1 ≤ keep) (d : Dirs α) (k : Nat) :
+    cleanupRaft keep (crashAt junk d (cleanSteps keep d) k) = cleanupRaft keep d := by
+  cases hd : d.data with
+  | none =>
+    have hs : cleanSteps keep d = [.mkData, .rmData] := by unfold cleanSteps; rw [hd]
+    rw [hs]
+    match k with
+    | 0 => rfl
+    | 1 => simp only [crashAt, List.take_succ_cons, List.take_zero, applySteps, List.foldl_cons, List.foldl_nil, applyStep, cleanupRaft, hd]
+    | k + 2 => simp only [crashAt, List.take_succ_cons, List.take_nil, applySteps, List.foldl_cons, List.foldl_nil, applyStep, cleanupRaft, hd]
+  | some f =>
+    cases f with
+    | nosnap =>
+      have hs : cleanSteps keep d = [.rmData] := by unfold cleanSteps; rw [hd]
+      rw [hs]
+      cases k with
+      | zero => rfl
+      | succ k =>
+        simp only [crashAt, List.take_succ_cons, List.take_nil, applySteps, List.foldl_cons, List.foldl_nil, applyStep,
+          cleanupRaft, hd]
+    | snap s =>
+      have hs : cleanSteps keep d = backupSteps keep d := by unfold cleanSteps; rw [hd]
+      rw [hs]
+      have hform := backup_forms junk keep d k
+      have hd' : cleanupRaft keep d = makeBackup keep d := by unfold cleanupRaft; rw [hd]
+      rcases (form_facts hk junk d _ hd _ hform).2.2.2 with h | h
+      · rw [hd']
+        unfold cleanupRaft
+        rw [h]
+        exact form_restart hk junk d _ hd _ hform h
+      · rw [h, hd', final_eq_makeBackup hk d _ hd]
+        rfl
+
+example : cleanupRaft 2 (crashAt (.nosnap) ({ data := some (.snap 5), old := fun i => if i < 2 then some (.snap i) else none } : Dirs Nat)
+    (cleanSteps 2 { data := some (.snap 5), old := fun i => if i < 2 then some (.snap i) else none }) 3) =
+    cleanupRaft 2 { data := some (.snap 5), old := fun i => if i < 2 then some (.snap i) else none } :=
+  crash_restart_repairs _ (by decide) _ _
+
+/-- **snapshot_save_atomic_or_absent.** After a crash at ANY point of `SnapshotSave` the data folder holds what it
+    held, nothing (absent, or a folder without a visible snapshot), or the new snapshot — never a mixture; and a
+    snapshot it held before is in the data folder or in old.0. -/
+theorem snapshot_save_atomic_or_absent {α : Type} (junk : Folder α) {keep : Nat} (hk : 1 ≤ keep) (d : Dirs α) (s : α) (k : Nat) :
+    ((crashAt junk d (saveSteps keep d s) k).data = d.data ∨ (crashAt junk d (saveSteps keep d s) k).data = none ∨
+      (crashAt junk d (saveSteps keep d s) k).data = some .nosnap ∨ (crashAt junk d (saveSteps keep d s) k).data = some (.snap s)) ∧
+    (∀ p, d.data = some (.snap p) → (crashAt junk d (saveSteps keep d s) k).data = some (.snap p) ∨
+      (crashAt junk d (saveSteps keep d s) k).old 0 = some (.snap p)) := by
+  cases hd : d.data with
+  | none =>
+    have hs : saveSteps keep d s = [.mkData, .commit s] := by unfold saveSteps; rw [hd]
+    rw [hs]
+    refine ⟨?_, fun p hp => by cases hp⟩
+    match k with
+    | 0 => left; simp [crashAt, applySteps, hd]
+    | 1 => right; right; left; simp [crashAt, applySteps, applyStep, hd]
+    | k + 2 => right; right; right; simp [crashAt, applySteps, applyStep]
+  | some f =>
+    cases f with
+    | nosnap =>
+      have hs : saveSteps keep d s = [.commit s] := by unfold saveSteps; rw [hd]
+      rw [hs]
+      refine ⟨?_, fun p hp => by cases hp⟩
+      match k with
+      | 0 => left; simp [crashAt, applySteps, hd]
+      | k + 1 => right; right; right; simp [crashAt, applySteps, applyStep]
+    | snap p =>
+      have hs : saveSteps keep d s = backupSteps keep d ++ [.mkData, .commit s] := by unfold saveSteps; rw [hd]
+      rw [hs]
+      by_cases hk1 : k ≤ (backupSteps keep d).length
+      · have he : crashAt junk d (backupSteps keep d ++ [.mkData, .commit s]) k = crashAt junk d (backupSteps keep d) k := by
+          unfold crashAt; rw [take_append_le _ _ _ hk1]
+        rw [he]
+        obtain ⟨h1, _, _, h4⟩ := form_facts hk junk d _ hd _ (backup_forms junk keep d k)
+        refine ⟨?_, fun q hq => by cases hq; exact h1⟩
+        rcases h4 with h | h
+        · exact Or.inl h
+        · right; left; rw [h]; rfl
+      · have he : crashAt junk d (backupSteps keep d ++ [.mkData, .commit s]) k =
+            applySteps junk (finalForm keep d) (([FsStep.mkData, .commit s] : List (FsStep α)).take (k - (backupSteps keep d).length)) := by
+          unfold crashAt
+          rw [take_append_ge _ _ _ (by omega), applySteps_append, backup_all junk hk d _ hd]
+        rw [he]
+        have h0 : (finalForm keep d).old 0 = some (.snap p) := by simp [finalForm, hd]
+        obtain ⟨j, hj⟩ : ∃ j, k - (backupSteps keep d).length = j + 1 := ⟨k - (backupSteps keep d).length - 1, by omega⟩
+        rw [hj]
+        cases j with
+        | zero =>
+          refine ⟨Or.inr (Or.inr (Or.inl ?_)), fun q hq => by cases hq; exact Or.inr h0⟩
+          simp [applySteps, applyStep, finalForm]
+        | succ j =>
+          refine ⟨Or.inr (Or.inr (Or.inr ?_)), fun q hq => by cases hq; exact Or.inr (by simpa [applySteps, applyStep] using h0)⟩
+          simp [applySteps, applyStep]
+
+/-- the stronger reading: after a crash the data folder holds the previous snapshot or the new one -/
+def snapshot_save_strongly_atomic : Prop :=
+  ∀ (junk : Folder Nat) (keep : Nat), 1 ≤ keep → ∀ (d : Dirs Nat) (s k : Nat),
+    (crashAt junk d (saveSteps keep d s) k).data = d.data ∨ (crashAt junk d (saveSteps keep d s) k).data = some (.snap s)
+
+/-- The code does not guarantee it: between the rotation and the rename of the new snapshot the data folder is
+    absent (`OfflineState` reads the empty pinset; the previous snapshot is in old.0). Witness: N = 1, data = snapshot 1,
+    saving snapshot 2, crash after the first step. Reproduced on the implementation: `C14 crash 1 3 1 -,-,- s2`. -/
+theorem snapshot_save_strongly_atomic_fails : ¬ snapshot_save_strongly_atomic := by
+  intro h
+  have := h .nosnap 1 (by decide) { data := some (.snap 1), old := fun _ => none } 2 1
+  revert this
+  decide
+
+/-- **import_failure_leaves.** A raft `state import` whose stream does not decode has done exactly the cleaning: the
+    data folder is gone (the peer holds the empty pinset) and what it held is the newest backup. -/
+theorem import_failure_leaves {α : Type} (junk : Folder α) {keep : Nat} (hk : 1 ≤ keep) (d : Dirs α) (s : α) :
+    cleanupRaft keep d = some (applySteps junk d (importSteps keep d s false)) ∧
+    (applySteps junk d (importSteps keep d s false)).data = none ∧
+    (∀ p, d.data = some (.snap p) → (applySteps junk d (importSteps keep d s false)).old 0 = some (.snap p)) := by
+  have he : importSteps keep d s false = cleanSteps keep d := by simp [importSteps]
+  rw [he]
+  have hc := clean_steps_complete junk hk d
+  refine ⟨hc, ?_, ?_⟩
+  · unfold cleanupRaft at hc
+    cases hd : d.data with
+    | none => rw [hd] at hc; simp only [Option.some.injEq] at hc; rw [← hc]
+    | some f =>
+      cases f with
+      | nosnap => rw [hd] at hc; simp only [Option.some.injEq] at hc; rw [← hc]
+      | snap p =>
+        rw [hd] at hc; simp only [] at hc
+        rw [final_eq_makeBackup hk d _ hd] at hc
+        simp only [Option.some.injEq] at hc; rw [← hc]; rfl
+  · intro p hp
+    have hs : cleanSteps keep d = backupSteps keep d := by unfold cleanSteps; rw [hp]
+    rw [hs, backup_all junk hk d _ hp]
+    simp [finalForm, hp]
+
+/-- **peerstore_save_atomic_or_absent.** After a crash at ANY point of `SavePeerstore` (as it is since d57f8e5:
+    temporary file, then rename) `LoadPeerstore` returns the addresses of the previous file or the new ones, in order. -/
+theorem peerstore_save_atomic_or_absent (f : PFiles) (pinfos : List (Nat × List Nat)) (k : Nat) :
+    ploaded (pcrashAt f (psaveSteps pinfos) k) = ploaded f ∨ ploaded (pcrashAt f (psaveSteps pinfos) k) = flatten pinfos := by
+  by_cases hk : k ≤ ([PStep.createTmp] ++ (save pinfos).map PStep.writeTmp).length
+  · left
+    unfold pcrashAt psaveSteps ploaded
+    rw [take_append_le _ _ _ hk]
+    rw [foldl_keeps_file]
+    intro s hs
+    have hs' := List.mem_of_mem_take hs
+    simp only [List.mem_append, List.mem_singleton, List.mem_map] at hs'
+    rcases hs' with h | ⟨x, _, rfl⟩
+    · exact Or.inl h
+    · exact Or.inr ⟨x, rfl⟩
+  · right
+    unfold pcrashAt
+    rw [List.take_of_length_le (by simp only [psaveSteps, List.length_append, List.length_cons, List.length_nil] at hk ⊢; omega), psave_all]
+    simp only [ploaded, Option.getD_some]
+    exact load_save pinfos
+
+/-- saving again after a crash at any point gives the complete new file and leaves no temporary file -/
+theorem peerstore_restart_repairs (f : PFiles) (pinfos : List (Nat × List Nat)) (k : Nat) :
+    (psaveSteps pinfos).foldl applyP (pcrashAt f (psaveSteps pinfos) k) = { file := some (save pinfos), tmp := none } :=
+  psave_all _ _
+
+/-- the same statement for the code as it was until d57f8e5 (truncate in place, then write line by line) -/
+def peerstore_save_in_place_atomic : Prop :=
+  ∀ (f : PFiles) (pinfos : List (Nat × List Nat)) (k : Nat),
+    ploaded (pcrashAt f (psaveInPlaceSteps pinfos) k) = ploaded f ∨ ploaded (pcrashAt f (psaveInPlaceSteps pinfos) k) = flatten pinfos
+
+/-- It failed: a crash right after the truncation left an empty file (all saved addresses lost, none of the new ones
+    written). Reproduced on the implementation before the repair: `C14 pscrash f4p1,f5p3 2:4.5/3:6 => kill=f4p1,f5p3|-|f4p2|…`. -/
+theorem peerstore_save_in_place_atomic_fails : ¬ peerstore_save_in_place_atomic := by
+  intro h
+  have := h { file := some [.full 4 1], tmp := none } [(2, [4])] 1
+  revert this
+  decide
+
+/-- A peerstore file cut inside a line: every whole line before the cut that parses is loaded, in order; what is
+    left of the cut line is skipped unless it happens to be an address again (then it is the last entry). -/
+theorem truncated_tail (file : List Line) (k : Nat) (c : Cut) :
+    load (cutFile file k c) = load (file.take k) ++ load c.line ∧
+    (c = .nothing ∨ c = .unparsable → load (cutFile file k c) = load (file.take k)) := by
+  constructor
+  · simp [cutFile, load, List.filter_append]
+  · rintro (rfl | rfl) <;> simp [cutFile, load, List.filter_append, Cut.line, Line.loads]
+
+example : ploaded (pcrashAt { file := some [.full 4 1, .full 5 3], tmp := none } (psaveSteps [(2, [4, 5]), (3, [6])]) 3) =
+    [.full 4 1, .full 5 3] := by decide
+
+/-- **ps_no_extra_peer.** For EVERY peerstore file (any lines in any order: duplicates, several addresses per peer,
+    interleaved peers, bare addresses, comments, blank and unparsable lines, our own address): the peers a fresh host
+    knows after importing it are exactly the peers (of the universe, other than ourselves) that have a full address
+    line in the file — no extra peer, none missing — and the addresses it holds for such a peer are exactly the
+    addresses of that peer's lines. -/
+theorem ps_no_extra_peer (self : Nat) (file : List Line) (univ : List Nat) :
+    (∀ p, p ∈ (importPeers self (load file) univ).map (·.id) ↔ p ∈ univ ∧ p ≠ self ∧ ∃ a, Line.full a p ∈ file) ∧
+    (∀ k ∈ importPeers self (load file) univ, ∀ a, a ∈ k.addrs ↔ Line.full a k.id ∈ file) ∧
+    (univ.Nodup → ((importPeers self (load file) univ).map (·.id)).Nodup) := by
+  have hentry : ∀ q k, importedEntry self (load file) q = some k →
+      k.id = q ∧ q ≠ self ∧ k.addrs = importedAddrs self (load file) q ∧ ∃ a, Line.full a q ∈ file := by
+    intro q k h
+    unfold importedEntry at h
+    split at h
+    · cases h
+    · rename_i pr hpr
+      cases h
+      unfold importPrio at hpr
+      by_cases hq : q = self
+      · simp [hq] at hpr
+      · simp only [hq, if_false] at hpr
+        obtain ⟨a, ha⟩ := lastIdx_present q (load file) 0 (by rw [hpr]; simp)
+        exact ⟨rfl, hq, rfl, a, full_mem_load.1 ha⟩
+  refine ⟨?_, ?_, ?_⟩
+  · intro p
+    simp only [importPeers, List.mem_map, List.mem_filterMap]
+    constructor
+    · rintro ⟨k, ⟨q, hq, hk⟩, rfl⟩
+      obtain ⟨h1, h2, _, h4⟩ := hentry q k hk
+      rw [h1]
+      exact ⟨hq, h2, h4⟩
+    · rintro ⟨hu, hps, a, ha⟩
+      have hsome := lastIdx_isSome_of_mem p a (load file) 0 none (full_mem_load.2 ha)
+      obtain ⟨pr, hpr⟩ := Option.isSome_iff_exists.1 hsome
+      exact ⟨{ id := p, prio := some pr, addrs := importedAddrs self (load file) p },
+        ⟨p, hu, by simp [importedEntry, importPrio, hps, hpr]⟩, rfl⟩
+  · intro k hk a
+    simp only [importPeers, List.mem_filterMap] at hk
+    obtain ⟨q, _, hk⟩ := hk
+    obtain ⟨h1, h2, h3, _⟩ := hentry q k hk
+    rw [h3, h1, mem_importedAddrs, full_mem_load]
+    exact ⟨fun h => h.1, fun h => ⟨h, h2⟩⟩
+  · intro hn
+    unfold importPeers
+    rw [List.map_filterMap]
+    have : ∀ q, (importedEntry self (load file) q).map (·.id) = if (importedEntry self (load file) q).isSome then some q else none := by
+      intro q
+      cases h : importedEntry self (load file) q with
+      | none => rfl
+      | some k => simp [(hentry q k h).1]
+    simp only [this]
+    refine List.Nodup.sublist ?_ hn
+    clear hn
+    induction univ with
+    | nil => exact List.Sublist.slnil
+    | cons x t ih =>
+      rw [List.filterMap_cons]
+      by_cases hx : (importedEntry self (load file) x).isSome = true
+      · simp only [hx, if_true]; exact List.Sublist.cons_cons _ ih
+      · simp only [hx]; exact List.Sublist.cons _ ih
+
+example : (importPeers 0 (load [.noSlash 0, .full 4 2, .bare 5, .full 6 3, .full 5 2, .slashBad 1, .full 7 0, .empty]) (List.range 6)).map (·.id) =
+    [2, 3] := by decide
+
+/-- **ps_same_priority_order** for EVERY peerstore file in which every peer's lines are adjacent (any other content:
+    garbage, comments, blank lines, bare addresses, our own address, duplicate lines, several addresses per peer — the
+    hypothesis `contiguous` is the one under which "line order" orders the peers at all; it is the Spec clause's guard):
+    whatever tie-break the fresh host's `PeerInfos` uses, it lists the peers in the order of their first line. -/
+theorem ps_same_priority_order (self : Nat) (file : List Line) (univ : List Nat) (outp : List (Nat × List Nat))
+    (hu : ∀ p ∈ linePeers self (load file), p ∈ univ) (hun : univ.Nodup)
+    (hc : contiguous (linePeers self (load file)) = true)
+    (hout : peerInfosAllowed { self := self, known := importPeers self (load file) univ, peers := univ } outp = true) :
+    outp.map (·.1) = dedupKeepFirst (linePeers self (load file)) := by
+  set L := load file with hL
+  set known2 := importPeers self L univ with hk2
+  set D := dedupKeepFirst (linePeers self L) with hD
+  unfold peerInfosAllowed at hout
+  simp only [Bool.and_eq_true] at hout
+  have hperm := List.isPerm_iff.1 hout.1.1
+  have hsorted := hout.1.2
+  have hDmem : ∀ p, p ∈ D ↔ p ≠ self ∧ ∃ a, Line.full a p ∈ L := fun p => mem_dedupKeepFirst.trans mem_linePeers
+  have hDu : ∀ p ∈ D, p ∈ univ := fun p hp => hu p (mem_dedupKeepFirst.1 hp)
+  have hprio : ∀ p ∈ D, ∀ k, lastIdx p L 0 none = some k → prioOf known2 p = k := by
+    intro p hp k hk'
+    have hps : p ≠ self := ((hDmem p).1 hp).1
+    unfold prioOf
+    rw [hk2, lookup_importPeers, if_pos (hDu p hp)]
+    simp [importedEntry, importPrio, hps, hk']
+  have hmem : ∀ p, p ∈ listed { self := self, known := known2, peers := univ } ↔ p ∈ D := by
+    intro p
+    unfold listed
+    simp only [List.mem_filter, Bool.and_eq_true, bne_iff_ne, Bool.not_eq_true', ne_eq]
+    constructor
+    · rintro ⟨hpu, hps, hadd⟩
+      have hent : importedEntry self L p ≠ none := by
+        intro hnone
+        simp only [addrsOf] at hadd
+        rw [hk2, lookup_importPeers, if_pos hpu, hnone] at hadd
+        simp at hadd
+      have hl : lastIdx p L 0 none ≠ none := by
+        intro hnone
+        apply hent
+        simp [importedEntry, importPrio, hps, hnone]
+      obtain ⟨a, ha⟩ := lastIdx_present p L 0 hl
+      exact (hDmem p).2 ⟨hps, a, ha⟩
+    · intro hp
+      obtain ⟨hps, a, ha⟩ := (hDmem p).1 hp
+      refine ⟨hDu p hp, hps, ?_⟩
+      obtain ⟨k, hk'⟩ := Option.isSome_iff_exists.1 (lastIdx_isSome_of_mem p a L 0 none ha)
+      simp only [addrsOf]
+      rw [hk2, lookup_importPeers, if_pos (hDu p hp)]
+      simp only [importedEntry, importPrio, hps, if_false, hk', Option.map_some, Option.getD_some]
+      have := importedAddrs_ne_nil (self := self) hps ha
+      cases h : importedAddrs self L p with
+      | nil => exact absurd h this
+      | cons _ _ => rfl
+  have hPstrict : D.Pairwise (fun a b => prioOf known2 a < prioOf known2 b) := by
+    refine List.Pairwise.imp_of_mem ?_ (dedup_prio_increasing self L 0 hc)
+    intro p q hp hq ⟨a, b, ha, hb, hab⟩
+    rw [hprio p hp a ha, hprio q hq b hb]
+    exact hab
+  have houtmem : ∀ x, x ∈ outp.map (·.1) ↔ x ∈ D := fun x => (hperm.mem_iff).trans (hmem x)
+  have houtnd : (outp.map (·.1)).Nodup := by
+    rw [hperm.nodup_iff]
+    exact List.Nodup.filter _ hun
+  have hdist : ∀ x ∈ D, ∀ y ∈ D, x = y ∨ prioOf known2 x ≠ prioOf known2 y := by
+    intro x hx y hy
+    rcases pairwise_both hPstrict x hx y hy with h | h | h
+    · exact Or.inl h
+    · exact Or.inr (Nat.ne_of_lt h)
+    · exact Or.inr (Nat.ne_of_gt h)
+  have houtstrict : (outp.map (·.1)).Pairwise (fun a b => prioOf known2 a < prioOf known2 b) := by
+    have h1 := sortedByPrio_pairwise known2 _ hsorted
+    have h2 : (outp.map (·.1)).Pairwise (fun a b => a ≠ b) := houtnd
+    have h3 := List.Pairwise.and h1 h2
+    refine List.Pairwise.imp_of_mem ?_ h3
+    intro a b ha hb ⟨hle, hne'⟩
+    rcases hdist a ((houtmem a).1 ha) b ((houtmem b).1 hb) with h | h
+    · exact absurd h hne'
+    · omega
+  exact strict_sorted_unique (prioOf known2) _ D houtstrict hPstrict houtmem
+
+example : contiguous (linePeers 0 (load [.noSlash 0, .full 4 2, .bare 5, .full 5 2, .full 7 0, .full 6 3, .slashBad 1, .full 6 3])) = true ∧
+    dedupKeepFirst (linePeers 0 (load [.noSlash 0, .full 4 2, .bare 5, .full 5 2, .full 7 0, .full 6 3, .slashBad 1, .full 6 3])) = [2, 3] := by
+  decide
+
 /-! ## Prop-level readings of the Bool checkers -/
 
 /-- Prop reading of the Bool checker `samePinset`: one pin per cid on both sides, same pins. -/
@@ -404,6 +863,7 @@ theorem gen_source_Pstoremgr_f_Manager_ImportPeers : Gen.Pstoremgr.f_Manager_Imp
 theorem gen_source_Pstoremgr_f_Manager_ImportPeersFromPeerstore : Gen.Pstoremgr.f_Manager_ImportPeersFromPeerstore = Expected.Pstoremgr.f_Manager_ImportPeersFromPeerstore := rfl
 theorem gen_source_Pstoremgr_f_Manager_LoadPeerstore : Gen.Pstoremgr.f_Manager_LoadPeerstore = Expected.Pstoremgr.f_Manager_LoadPeerstore := rfl
 theorem gen_source_Pstoremgr_f_Manager_SavePeerstore : Gen.Pstoremgr.f_Manager_SavePeerstore = Expected.Pstoremgr.f_Manager_SavePeerstore := rfl
+theorem gen_source_Pstoremgr_f_writePeerstore : Gen.Pstoremgr.f_writePeerstore = Expected.Pstoremgr.f_writePeerstore := rfl
 theorem gen_source_Pstoremgr_f_Manager_SavePeerstoreForPeers : Gen.Pstoremgr.f_Manager_SavePeerstoreForPeers = Expected.Pstoremgr.f_Manager_SavePeerstoreForPeers := rfl
 theorem gen_source_Pstoremgr_f_Manager_Bootstrap : Gen.Pstoremgr.f_Manager_Bootstrap = Expected.Pstoremgr.f_Manager_Bootstrap := rfl
 theorem gen_source_Pstoremgr_f_Manager_SetPriority : Gen.Pstoremgr.f_Manager_SetPriority = Expected.Pstoremgr.f_Manager_SetPriority := rfl
@@ -428,6 +888,14 @@ theorem gen_source_Cmdutils_f_crdtStateManager_ExportState : Gen.Cmdutils.f_crdt
 theorem gen_source_Cmdutils_f_crdtStateManager_Clean : Gen.Cmdutils.f_crdtStateManager_Clean = Expected.Cmdutils.f_crdtStateManager_Clean := rfl
 theorem gen_source_Cmdutils_f_importState : Gen.Cmdutils.f_importState = Expected.Cmdutils.f_importState := rfl
 theorem gen_source_Cmdutils_f_exportState : Gen.Cmdutils.f_exportState = Expected.Cmdutils.f_exportState := rfl
+theorem gen_source_FsCalls_c_dataBackupHelper_listBackups : Gen.FsCalls.c_dataBackupHelper_listBackups = Expected.FsCalls.c_dataBackupHelper_listBackups := rfl
+theorem gen_source_FsCalls_c_dataBackupHelper_makeBackup : Gen.FsCalls.c_dataBackupHelper_makeBackup = Expected.FsCalls.c_dataBackupHelper_makeBackup := rfl
+theorem gen_source_FsCalls_c__CleanupRaft : Gen.FsCalls.c__CleanupRaft = Expected.FsCalls.c__CleanupRaft := rfl
+theorem gen_source_FsCalls_c__SnapshotSave : Gen.FsCalls.c__SnapshotSave = Expected.FsCalls.c__SnapshotSave := rfl
+theorem gen_source_FsCalls_c_Manager_SavePeerstore : Gen.FsCalls.c_Manager_SavePeerstore = Expected.FsCalls.c_Manager_SavePeerstore := rfl
+theorem gen_source_FsCalls_c__writePeerstore : Gen.FsCalls.c__writePeerstore = Expected.FsCalls.c__writePeerstore := rfl
+theorem gen_source_FsCalls_c_raftStateManager_ImportState : Gen.FsCalls.c_raftStateManager_ImportState = Expected.FsCalls.c_raftStateManager_ImportState := rfl
+theorem gen_source_FsCalls_c_crdtStateManager_ImportState : Gen.FsCalls.c_crdtStateManager_ImportState = Expected.FsCalls.c_crdtStateManager_ImportState := rfl
 
 
 end CV.C14
